@@ -26,7 +26,7 @@ MIN_NONTRIVIAL = {'quick': 700, 'thorough': 25000}
 NCASES = {'quick': 1400, 'thorough': 44000}
 TIME_CAP = {'quick': 50, 'thorough': 780}
 
-REQUIRED_CLASSES = ['source-local', 'source-remote', 'source-base',
+REQUIRED_CLASSES = ['alias:compare-then-reference', 'alias:import-then-option', 'alias:form-case', 'alias:form-bool-node', 'alias:form-condition', 'alias:ref-inject', 'alias:ref-import', 'alias:modify-source', 'source-local', 'source-remote', 'source-base',
                     'slice-index', 'slice-range', 'slice-string', 'slice-1d', 'slice-2d', 'slice-in-modification',
                     'host-own-unit', 'host-adopts-unit', 'injection-in-definition', 'injection-in-modification',
                     'injection-converted-into-definition-unit', 'injected-float', 'injected-int', 'injected-str',
@@ -41,7 +41,7 @@ REQUIRED_CLASSES = ['source-local', 'source-remote', 'source-base',
                     'violating-modification-of-import:constant',
                     'base-immutability-checked', 'remote-immutability-checked', 'custom-unit-defined',
                     'prefix-sibling-present']
-REQUIRED_MONITORS = ['programs_compared', 'must_fail_checked', 'base_snapshots_compared', 'remote_snapshots_compared',
+REQUIRED_MONITORS = ['alias_programs_compared', 'programs_compared', 'must_fail_checked', 'base_snapshots_compared', 'remote_snapshots_compared',
                      'imported_constraints_compared', 'step_guard_runs']
 ASSUMPTIONS = [
     'unit factors: hand-written exact SI table (see dip_ref_c18) plus the $units of the generated text',
@@ -76,8 +76,11 @@ def teardown(ctx):
 
 
 def cases(rng, tier, shard, nshards, ctx):
+    from vt.props import c17_alias
     for i in range(NCASES[tier] // nshards):
         yield dict(prog=R.Gen(rng).program())
+        if i % 4 == 0:
+            yield dict(alias=c17_alias.gen(rng))
 
 
 # ----------------------------------------------------------------------------- observing the real code
@@ -308,6 +311,16 @@ def to_obs(ctx, kind, res):
 def run_case(case, ctx):
     ctx['keep'] = []
     tmp = None
+    if 'alias' in case:
+        from vt.props import c17_alias
+        try:
+            out = c17_alias.run(case, ctx, real_parse)
+        finally:
+            ctx['keep'] = []
+            leak = ctx['hyg'].check_restore()
+        out['monitors']['table_leaks_restored'] = 1 if leak else 0
+        out['monitors']['step_guard_runs'] = ctx['guard'].take_runs()
+        return out
     try:
         prog = case['prog']
         files = {}
